@@ -4,9 +4,14 @@
               doFullHandshake with readNextFlightMsg (a ClientHello arriving while the client's
               flight is awaited is taken as a retransmission: the server flight is re-sent and
               reading continues), readFinished
-     record : dtlcp/conn.go readRecordOrCCS: records of an older epoch and replayed sequence
-              numbers are dropped silently; a ChangeCipherSpec that is not expected is an error
-              when no handshake bytes are pending and is deferred when some are.
+     record : dtlcp/conn.go readRecordOrCCS: until the protocol version is fixed (client: by
+              the ServerHello; server: by the first ClientHello) a record that is neither a
+              handshake record nor an alert is fatal ("first record does not look like a TLCP
+              handshake"); records of another epoch and replayed sequence
+              numbers are dropped silently; a ChangeCipherSpec that cannot be processed yet is
+              dropped (deferred when handshake bytes are pending); a handshake record arriving
+              while the ChangeCipherSpec is awaited is a retransmission of the peer's previous
+              flight and is dropped (it still resets the ignored-record count).
    One event = one datagram carrying one record.  Same conventions as Model/Handshake.v;
    ClientHello events carry a third bit: the cookie is valid for this hello. *)
 From V Require Export Model.Handshake.
@@ -32,7 +37,8 @@ Definition dcstep (p : cparams) (c : dcconf) (e : dev) : dcconf :=
   | DC_Hello hc =>
       match e with
       | DOld => c
-      | DEnd | DApp | DCcs => dcerr                   (* CCS: not expected, nothing pending *)
+      | DEnd | DApp => dcerr
+      | DCcs => dcerr                                 (* haveVers is still false: only handshake records and alerts are tolerated *)
       | DWarn => if Nat.ltb max_useless (S (dc_retry c)) then dcerr
                  else mkDC (DC_Hello hc) (S (dc_retry c)) (dc_pend c)
       | DFrag => mkDC (DC_Hello hc) 0 true
@@ -53,12 +59,14 @@ Definition dcstep (p : cparams) (c : dcconf) (e : dev) : dcconf :=
       let cur := mkCC s (dc_retry c) (dc_pend c) in
       match e with
       | DOld => c
-      | DHs k ok aux => back (cstep p cur (EHs k ok aux))
-      | DHello _ _ _ => back (cstep p cur (EHs ClientHello true false))   (* a foreign message for a client *)
-      | DVerify => if expects_ccs s then dcerr
+      | DHs k ok aux => if expects_ccs s then mkDC (DC_Main s) 0 (dc_pend c)      (* retransmission: dropped *)
+                        else back (cstep p cur (EHs k ok aux))
+      | DHello _ _ _ => if expects_ccs s then mkDC (DC_Main s) 0 (dc_pend c)
+                        else back (cstep p cur (EHs ClientHello true false))   (* a foreign message for a client *)
+      | DVerify => if expects_ccs s then mkDC (DC_Main s) 0 (dc_pend c)
                    else if dc_pend c then mkDC (DC_Main s) 0 true else dcerr
-      | DFrag => back (cstep p cur EFrag)
-      | DCcs => back (cstep p cur ECcs)               (* deferred instead of refused when bytes are pending: never completes either way *)
+      | DFrag => if expects_ccs s then mkDC (DC_Main s) 0 (dc_pend c) else back (cstep p cur EFrag)
+      | DCcs => if expects_ccs s then back (cstep p cur ECcs) else c
       | DWarn => back (cstep p cur EWarn)
       | DApp => back (cstep p cur EApp)
       | DEnd => back (cstep p cur EEnd)
@@ -88,7 +96,8 @@ Definition dsstep (p : sparams) (c : dsconf) (e : dev) : dsconf :=
   | DS_Hello first =>
       match e with
       | DOld => c
-      | DEnd | DApp | DCcs => dserr
+      | DEnd | DApp => dserr
+      | DCcs => if first then dserr else c            (* before any ClientHello: fatal; afterwards: dropped *)
       | DWarn => if Nat.ltb max_useless (S (ds_retry c)) then dserr
                  else mkDS (DS_Hello first) (S (ds_retry c)) (ds_pend c)
       | DFrag => mkDS (DS_Hello first) 0 true
@@ -106,15 +115,17 @@ Definition dsstep (p : sparams) (c : dsconf) (e : dev) : dsconf :=
       let cur := mkSC s (ds_retry c) (ds_pend c) in
       match e with
       | DOld => c
-      | DHs k ok aux => back (sstep p cur (EHs k ok aux))
+      | DHs k ok aux => if s_expects_ccs s then mkDS (DS_Main s) 0 (ds_pend c)
+                        else back (sstep p cur (EHs k ok aux))
       | DHello _ _ _ =>
-          if ds_pend c then mkDS (DS_Main s) 0 true
+          if s_expects_ccs s then mkDS (DS_Main s) 0 (ds_pend c)
+          else if ds_pend c then mkDS (DS_Main s) 0 true
           else if in_flight5 s then mkDS (DS_Main s) 0 false              (* retransmission: flight re-sent *)
           else back (sstep p cur (EHs ClientHello true false))
-      | DVerify => if s_expects_ccs s then dserr
+      | DVerify => if s_expects_ccs s then mkDS (DS_Main s) 0 (ds_pend c)
                    else if ds_pend c then mkDS (DS_Main s) 0 true else dserr
-      | DFrag => back (sstep p cur EFrag)
-      | DCcs => back (sstep p cur ECcs)
+      | DFrag => if s_expects_ccs s then mkDS (DS_Main s) 0 (ds_pend c) else back (sstep p cur EFrag)
+      | DCcs => if s_expects_ccs s then back (sstep p cur ECcs) else c
       | DWarn => back (sstep p cur EWarn)
       | DApp => back (sstep p cur EApp)
       | DEnd => back (sstep p cur EEnd)
@@ -129,7 +140,9 @@ Definition dsaccepts (p : sparams) (es : list dev) : bool :=
 (* ------------------------------------------------------------------ the datagram language *)
 (* A legal datagram flow is a legal stream flow (Model/Handshake.v client_flows / server_flows)
    in which, additionally,
-   - dropped records (DOld) may appear anywhere,
+   - dropped records (DOld) may appear anywhere; so may, once the peer's hello has been read, a
+     ChangeCipherSpec that is not yet expected, and handshake records while the ChangeCipherSpec is awaited (retransmissions of
+     the peer's previous flight: dropped, but they restart the warning budget),
    - client side: HelloVerifyRequests may precede the ServerHello (each restarts the warning budget),
    - server side: cookieless / stale-cookie ClientHellos (each answered by a HelloVerifyRequest)
      may precede the ClientHello that carries a valid cookie, and retransmitted ClientHellos may
@@ -144,15 +157,19 @@ Fixpoint drealises_c (budget : nat) (started : bool) (its : list item) (es : lis
           match e with
           | DOld => drealises_c budget started its rest
           | DWarn => match budget with O => false | S b => drealises_c b started its rest end
-          | DVerify => if started then false else drealises_c max_useless false its rest
-          | DCcs => match it with ICcs => drealises_c budget started its' rest | _ => false end
+          | DVerify => match it with
+                       | ICcs => drealises_c max_useless started its rest
+                       | _ => if started then false else drealises_c max_useless false its rest
+                       end
+          | DCcs => match it with ICcs => drealises_c budget started its' rest | _ => started && drealises_c budget started its rest end
           | DHs k ok aux =>
               match it with
               | IHs k' aux' =>
                   hs_eqb k k' && ok && (negb (aux_matters_c k) || Bool.eqb aux aux') &&
                   drealises_c max_useless true its' rest
-              | ICcs => false
+              | ICcs => drealises_c max_useless started its rest
               end
+          | DHello _ _ _ | DFrag => match it with ICcs => drealises_c max_useless started its rest | _ => false end
           | _ => false
           end
       end
@@ -167,7 +184,7 @@ Definition awaits_flight5 (its : list item) : bool :=
   | _ => false
   end.
 
-Fixpoint drealises_s (budget : nat) (started : bool) (its : list item) (es : list dev) : bool :=
+Fixpoint drealises_s (budget : nat) (seen started : bool) (its : list item) (es : list dev) : bool :=
   match es with
   | [] => match its with [] => true | _ => false end
   | e :: rest =>
@@ -175,15 +192,17 @@ Fixpoint drealises_s (budget : nat) (started : bool) (its : list item) (es : lis
       | [] => true
       | it :: its' =>
           match e with
-          | DOld => drealises_s budget started its rest
-          | DWarn => match budget with O => false | S b => drealises_s b started its rest end
-          | DCcs => match it with ICcs => drealises_s budget started its' rest | _ => false end
+          | DOld => drealises_s budget seen started its rest
+          | DWarn => match budget with O => false | S b => drealises_s b seen started its rest end
+          | DCcs => match it with ICcs => drealises_s budget seen started its' rest | _ => seen && drealises_s budget seen started its rest end
+          | DVerify | DFrag => match it with ICcs => drealises_s max_useless seen started its rest | _ => false end
           | DHello ok aux cookie =>
               if started then
-                (if awaits_flight5 its then drealises_s max_useless true its rest else false)
-              else if negb cookie then drealises_s max_useless false its rest
+                (if awaits_flight5 its then drealises_s max_useless true true its rest
+                 else match it with ICcs => drealises_s max_useless true true its rest | _ => false end)
+              else if negb cookie then drealises_s max_useless true false its rest
               else match it with
-                   | IHs ClientHello aux' => ok && Bool.eqb aux aux' && drealises_s max_useless true its' rest
+                   | IHs ClientHello aux' => ok && Bool.eqb aux aux' && drealises_s max_useless true true its' rest
                    | _ => false
                    end
           | DHs k ok aux =>
@@ -191,8 +210,8 @@ Fixpoint drealises_s (budget : nat) (started : bool) (its : list item) (es : lis
               | IHs k' aux' =>
                   started && negb (hs_eqb k ClientHello) &&
                   hs_eqb k k' && ok && (negb (aux_matters_s k) || Bool.eqb aux aux') &&
-                  drealises_s max_useless true its' rest
-              | ICcs => false
+                  drealises_s max_useless true true its' rest
+              | ICcs => drealises_s max_useless seen started its rest
               end
           | _ => false
           end
@@ -200,4 +219,22 @@ Fixpoint drealises_s (budget : nat) (started : bool) (its : list item) (es : lis
   end.
 
 Definition dslegal (p : sparams) (es : list dev) : bool :=
-  existsb (fun f => drealises_s max_useless false f es) (server_flows p).
+  existsb (fun f => drealises_s max_useless false false f es) (server_flows p).
+
+(* ------------------------------------------------------------------ relation to the stream automaton *)
+(* the stream event a datagram event stands for when the endpoint consumes it *)
+Definition to_ev (e : dev) : ev :=
+  match e with
+  | DHs k ok aux => EHs k ok aux
+  | DHello ok aux _ => EHs ClientHello ok aux
+  | DCcs => ECcs
+  | DWarn => EWarn
+  | DFrag => EFrag
+  | DApp => EApp
+  | DVerify | DEnd | DOld => EEnd
+  end.
+
+Inductive sublist {A : Type} : list A -> list A -> Prop :=
+| sub_nil : sublist [] []
+| sub_skip : forall x l1 l2, sublist l1 l2 -> sublist l1 (x :: l2)
+| sub_take : forall x l1 l2, sublist l1 l2 -> sublist (x :: l1) (x :: l2).
